@@ -35,9 +35,11 @@ def domain(tier):
     # a length that agrees with 0x1 in its low 64 bits (lengths are 256-bit words)
     d += [["fixed", 0, "0x10000000000000001"], ["fixed", 1, "0x10000000000000001"]]
     d += [["conflict"]]
+    # packed encodings (beyond the quantifier's list): single spans, an empty one, a signed whole-word one
+    d += [["packed", False, [0, 0, 8]], ["packed", False, [1, 0, 160]], ["packed", False, [0, 8, 8]],
+          ["packed", False], ["packed", True, [2, 0, 256]]]
     if tier == "thorough":
-        d += [["packed", False, [0, 0, 8]], ["packed", False, [1, 0, 160]], ["packed", False, [0, 8, 8]],
-              ["packed", False], ["packed", True, [2, 0, 256]]]
+        d += [["packed", False, [0, 0, 8], [1, 8, 8]], ["packed", False, [1, 0, 8], [0, 8, 152]], ["packed", False, [3, 0, 0]]]
     return d
 
 
